@@ -49,7 +49,11 @@ func main() {
 	d := flag.Int("depth", 2, "tree depth")
 	b := flag.Int("batch", 2, "batch size")
 	second := flag.Bool("second", false, "also create a second, independent insertion setup")
+	dd := flag.Int("deldepth", 0, "tree depth of the deletion system (default: -depth; deletion stops at 31, insertion at 32)")
 	flag.Parse()
+	if *dd == 0 {
+		*dd = *d
+	}
 	g := gen.New(*seed)
 	must := func(ps *prover.ProvingSystem, err error) *prover.ProvingSystem {
 		if err != nil {
@@ -59,7 +63,7 @@ func main() {
 		return ps
 	}
 	ins := &sys{"I", "insertion", must(prover.SetupInsertion(uint32(*d), uint32(*b)))}
-	del := &sys{"D", "deletion", must(prover.SetupDeletion(uint32(*d), uint32(*b)))}
+	del := &sys{"D", "deletion", must(prover.SetupDeletion(uint32(*dd), uint32(*b)))}
 	systems := []*sys{ins, del}
 	if *second {
 		systems = append(systems, &sys{"I2", "insertion", must(prover.SetupInsertion(uint32(*d), uint32(*b)))})
@@ -88,9 +92,9 @@ func main() {
 				other = batchgen.HashInsertion(p.StartIndex, &p.PreRoot, &p.PostRoot, ids)
 				pr, err = s.ps.ProveInsertion(p)
 			} else {
-				p, m := batchgen.Deletion(g, *d, *b)
+				p, m := batchgen.Deletion(g, *dd, *b)
 				mut = m
-				line = fmt.Sprintf("prove\tdeletion\t%d\t%d\t%s", *d, *b, batchgen.CanonDeletion(p))
+				line = fmt.Sprintf("prove\tdeletion\t%d\t%d\t%s", *dd, *b, batchgen.CanonDeletion(p))
 				h = new(big.Int).Set(&p.InputHash)
 				other = batchgen.HashDeletion(p.DeletionIndices, &p.PostRoot, &p.PreRoot)
 				pr, err = s.ps.ProveDeletion(p)
